@@ -6,6 +6,7 @@ CONSTANTS
   UseStoreSchema = TRUE
   MarkWritten = FALSE
   EpochGuard = TRUE
+  MergeAll = TRUE
 SPECIFICATION Spec
 INVARIANTS Stable Injective Function
 CHECK_DEADLOCK FALSE
